@@ -52,4 +52,35 @@ def greasePlaceholder : Nat := 0x0a0a
 /-- `unGREASEUint16`. -/
 def unGrease (v : Nat) : Nat := if isGrease v then greasePlaceholder else v
 
+/-! ### alias names
+
+A name-indexed row whose name is not the canonical (value-indexed) name of its value is an *alias*.
+`dict_consistent` says nothing about such names (it quantifies over the value-indexed rows), so the
+"intended code point" of an alias needs an oracle of its own: this **hand-written** table, taken from the
+registries the `dicttls` sources cite — not from the maps.  Rows: (packed table name, packed alias name,
+code point).  Keep it small and explicit; a new alias in the package must be added here after checking
+the registry (until then the check reports it, see `Drv.C32`). -/
+
+def tExtType : Nat := 0x0145787454797065                                   -- "ExtType"
+def tSignatureScheme : Nat := 0x015369676e6174757265536368656d65            -- "SignatureScheme"
+def tAuthorizationDataFormat : Nat := 0x01417574686f72697a6174696f6e44617461466f726d6174  -- "AuthorizationDataFormat"
+
+def expectedAliases : List (Nat × Nat × Nat) :=
+  [ -- RFC 9345 / IANA ExtensionType 34 "delegated_credential" (dicttls keeps the plural as canonical name)
+    (tExtType, 0x0164656c6567617465645f63726564656e7469616c, 34),
+    -- IANA TLS SignatureScheme 0x0202 "Reserved for backward compatibility" (dsa_sha1 of TLS 1.2)
+    (tSignatureScheme, 0x01526573657276656420666f72206261636b7761726420636f6d7061746962696c697479, 0x0202),
+    -- dicttls/authorization_data_formats.go: "Unassigned": 0 — the registry has no single code point for
+    -- it; pinned to what the code documents so that a change is noticed
+    (tAuthorizationDataFormat, 0x01556e61737369676e6564, 0) ]
+
+/-- the expected code point of alias `name` of table `tab` (`none`: not an expected alias). -/
+def expectedAlias : List (Nat × Nat × Nat) → Nat → Nat → Option Nat
+  | [], _, _ => none
+  | (t, n, v) :: rest, tab, name => if t == tab && n == name then some v else expectedAlias rest tab name
+
+/-- every regenerated alias row is an expected alias with the expected code point. -/
+def aliasesOk (regenerated : List (Nat × Nat × Nat)) : Bool :=
+  regenerated.all fun r => expectedAlias expectedAliases r.1 r.2.1 == some r.2.2
+
 end Dict
